@@ -17,7 +17,8 @@ Definition obs_f64 (r : res F64.t) : list Z :=
 Inductive fcase :=
 | FI2F (m s f : Z) (vals : list Z)      (* integer format s -> f32 (f = 32) / f64 (f = 64) *)
 | FF2I (m f d : Z) (bits : list Z)      (* f32 / f64 bit patterns -> integer format d *)
-| FF2F (m f : Z) (bits : list Z).       (* f32 -> f64 (f = 32), f64 -> f32 (f = 64) *)
+| FF2F (m f : Z) (bits : list Z)        (* f32 -> f64 (f = 32), f64 -> f32 (f = 64) *)
+| FFSame (m f : Z) (bits : list Z).     (* f32 -> f32 (f = 32), f64 -> f64 (f = 64): the blanket identity impl *)
 
 Definition run_fcase (c : fcase) : list (list Z) :=
   match c with
@@ -36,6 +37,9 @@ Definition run_fcase (c : fcase) : list (list Z) :=
   | FF2F m f bits =>
     map (fun b => if f =? 32 then obs_f64 (to_sample_f32_f64 (mode_of m) (F32.of_bits b))
                   else obs_f32 (to_sample_f64_f32 (mode_of m) (F64.of_bits b))) bits
+  | FFSame m f bits =>
+    map (fun b => if f =? 32 then obs_f32 (to_sample_f32_f32 (mode_of m) (F32.of_bits b))
+                  else obs_f64 (to_sample_f64_f64 (mode_of m) (F64.of_bits b))) bits
   end.
 
 Definition fcheck (c : fcase * list (list Z)) : bool := zll_eqb (run_fcase (fst c)) (snd c).
